@@ -7,7 +7,7 @@ import (
 
 // One printable code per character class; the same codes as MC_Escape.tla (operator Code).
 // Sigma: the input alphabet of the spec. The extra letters (0 1 n r b t x) only occur in escaped text.
-var sigmaCodes = "BQDZNRPTS%_-/*#;HXa"
+var sigmaCodes = "BQDZNRPTS%_-/*#;HXaK"
 
 // representatives: concrete byte strings standing for a class. The FIRST entry is the canonical one (used for the
 // spec <-> code conformance of the escaping transducers, where 'a' must be the letter a because of \x1a).
@@ -32,6 +32,9 @@ var reps = map[byte][]string{
 	'H': {"é", "€", "\U0001D11E", "\u02bc", "\uff07", "\u00a0", "\u2028", "\uff3c"},
 	// invalid UTF-8: lone start byte, lone continuation bytes, 0xff, a truncated 3-byte form, an overlong quote
 	'X': {"\xff", "\xc0", "\x80", "\xbf", "\xe2\x82", "\xc0\xa7", "\xa7"},
+	// the backtick: raw-string quote of the query languages in front of SQL (a value re-quoted with backticks must not be able
+	// to close its own quote and continue as query text), identifier quote of ClickHouse
+	'K': {"`", "`,x=`", "`}|={x=`", "``"},
 	// harmless letters / digits: n r t b x 0 after a backslash are ClickHouse escapes, a is \a
 	'a': {"a", "n", "x", "0", "Z", "b", "t", "r", "e", "N"},
 	// letters emitted by the escaping code
